@@ -1,7 +1,7 @@
 (* Declaration order (C10): the reference interpreter reaches top-level declarations only through
    name lookup, and name lookup in a duplicate-free list does not depend on the order of the list. *)
 From Coq Require Import List ZArith String Ascii Bool Arith Permutation FunctionalExtensionality.
-From Bloch Require Import Lang.Syntax Lang.Eval.
+From Bloch Require Import Lang.Syntax Lang.Eval Lang.Typing.
 Import ListNotations.
 
 Lemma find_perm {A} (name : A -> string) (x : string) (l l' : list A) :
@@ -115,3 +115,39 @@ Section Order.
     rewrite (eval_order_independent p q fuel _ _ W S). reflexivity.
   Qed.
 End Order.
+
+(* acceptance too: the reference checker's verdict does not depend on the order of the functions *)
+Lemma forallb_perm {A} (f : A -> bool) l l' : Permutation l l' -> forallb f l = forallb f l'.
+Proof.
+  intro P. induction P as [|a l l' P IH|a b l|l1 l2 l3 P1 IH1 P2 IH2]; cbn; auto.
+  - now rewrite IH.
+  - destruct (f a), (f b); reflexivity.
+  - congruence.
+Qed.
+
+Lemma nodup_names_spec l : nodup_names l = true <-> NoDup l.
+Proof.
+  induction l as [|x r IH]; cbn; split; intro H; auto using NoDup_nil.
+  - apply andb_true_iff in H. destruct H as [H1 H2]. constructor; [|now apply IH].
+    apply negb_true_iff in H1. intro Hin.
+    assert (existsb (String.eqb x) r = true) as E; [|congruence].
+    apply existsb_exists. exists x. split; [exact Hin | apply String.eqb_refl].
+  - inversion H as [|? ? Hn Hr]; subst. apply andb_true_iff. split; [|now apply IH].
+    apply negb_true_iff. apply not_true_is_false. intro E. apply existsb_exists in E.
+    destruct E as [y [Hy He]]. apply String.eqb_eq in He. subst. contradiction.
+Qed.
+
+
+Theorem check_program_order_independent p q :
+  wf_names p -> Permutation (p_fns p) (p_fns q) -> p_classes p = p_classes q ->
+  check_program p = check_program q.
+Proof.
+  intros [N Nc] P C.
+  assert (sig_of p = sig_of q) as Es.
+  { apply functional_extensionality. intro f. unfold sig_of. now rewrite (find_perm fn_name f _ _ N P). }
+  unfold check_program. rewrite <- Es.
+  rewrite (forallb_perm (check_fn (sig_of p)) _ _ P).
+  assert (nodup_names (map fn_name (p_fns p)) = nodup_names (map fn_name (p_fns q))) as ->; [|reflexivity].
+  assert (NoDup (map fn_name (p_fns q))) as Nq by (eapply Permutation_NoDup; [apply Permutation_map; exact P | exact N]).
+  apply nodup_names_spec in N. apply nodup_names_spec in Nq. congruence.
+Qed.
